@@ -146,15 +146,17 @@ func (b *sendDataWriter) Write(p []byte) (int, error) {
 			return 0, err
 		}
 
-		if b.transfer.bufInitPhase.Load() {
-			b.transfer.bufInitWG.Add(1)
-		}
+		bufInitPhase := b.transfer.bufInitPhase.Load()
 		if !b.deliver(b.buffer.Bytes()) {
 			return 0, b.ctx.Err()
 		}
 
-		if b.transfer.bufInitPhase.Load() {
-			b.transfer.bufInitWG.Wait()
+		if bufInitPhase { // wait for the ack of this chunk, but not beyond the end of the pipeline
+			select {
+			case <-b.transfer.bufInitAck:
+			case <-b.ctx.Done():
+				return 0, b.ctx.Err()
+			}
 		}
 		b.bufSize = b.transfer.bufferSize.Load()
 		b.buffer = bytes.NewBuffer(make([]byte, 0, b.bufSize))
@@ -703,6 +705,13 @@ func (t *trzszTransfer) pipelineSendData(ctx *pipelineContext, sendDataChan <-ch
 	return ackChan
 }
 
+func (t *trzszTransfer) ackBufInit() {
+	select {
+	case t.bufInitAck <- struct{}{}:
+	default:
+	}
+}
+
 func (t *trzszTransfer) pipelineRecvAck(ctx *pipelineContext, size int64, ackChan <-chan trzszAck, showProgress bool) <-chan int64 {
 	var progressChan chan int64
 	if showProgress {
@@ -745,12 +754,12 @@ func (t *trzszTransfer) pipelineRecvAck(ctx *pipelineContext, size int64, ackCha
 					// which the receiver takes for the pause keep-alive marker
 					t.bufferSize.Store(minInt64(bufSize*2, t.transferConfig.MaxBufSize) &^ 3)
 					if t.bufInitPhase.Load() {
-						t.bufInitWG.Done()
+						t.ackBufInit()
 					}
 				} else {
 					if t.bufInitPhase.Load() {
 						t.bufInitPhase.Store(false)
-						t.bufInitWG.Done()
+						t.ackBufInit()
 					}
 					if chunkTime >= 2*time.Second && length <= bufSize {
 						bufSize = (bufSize / int64(chunkTime/time.Second)) &^ 3
